@@ -102,7 +102,7 @@ def translate(src, vocab, targets, header, requires, shapes=None):
     out = [header, requires, ""]
     for fname, impl_of, coq_name, opts in targets:
         try:
-            fn = find_fn(items, fname, impl_of, opts.get("trait"), opts.get("trait_arg"))
+            fn = find_fn(items, fname, impl_of, opts.get("trait"), opts.get("trait_arg"), opts.get("target_arg"))
         except KeyError as e:
             raise TranslateError(str(e))
         try:
